@@ -425,37 +425,73 @@ namespace TsVerif.C18
 
 
 
-/-- The name node of a match, as the capture loop of `TagsIter::next` determines it. -/
-def nameOf (cfg : Cfg) (m : Mat) : Option R :=
-  if m.pat < cfg.tagsFrom then none
-  else ((capLoop cfg (cfg.pats[m.pat]?.getD {}) m.caps).name).map (fun c => (⟨c.sb, c.eb⟩ : R))
 
-theorem processMatch_queue (v : Variant) (cfg : Cfg) (src : Bytes) (m : Mat) (st : St) :
-    (processMatch v cfg src m st).queue = st.queue ∨
-    ∃ t, nameOf cfg m = some t.name ∧ (processMatch v cfg src m st).queue = qInsert t m.pat st.queue := by
-  unfold processMatch nameOf
+theorem tagOf_name (v : Variant) (cfg : Cfg) (src : Bytes) (m : Mat) (st : St) (t : Tag) (pv : Option LineInfo)
+    (hp : ¬ m.pat < cfg.tagsFrom) (h : tagOf v cfg src (cfg.pats[m.pat]?.getD {}) m st = some (t, pv)) :
+    nameOf cfg m = some t.name := by
+  unfold nameOf
+  simp only [hp, if_false]
+  unfold tagOf at h
+  generalize capLoop cfg (cfg.pats[m.pat]?.getD {}) m.caps = a at h ⊢
+  obtain ⟨name, docs, tag, stid, isDef, adj, ignored⟩ := a
+  cases name with
+  | none => simp at h
+  | some nameNode =>
+    cases tag with
+    | some tagNode =>
+      simp only at h
+      split at h
+      · simp at h
+      · split at h
+        · simp at h
+        · simp only [Option.some.injEq, Prod.mk.injEq] at h
+          rw [← h.1]
+          rfl
+    | none =>
+      simp only at h
+      split at h
+      · simp only [Option.some.injEq, Prod.mk.injEq] at h
+        rw [← h.1]; rfl
+      · simp at h
+
+theorem inserted_name {v : Variant} {cfg : Cfg} {src : Bytes} {m : Mat} {st : St} {e : Tag × Nat}
+    (h : inserted v cfg src m st = some e) : nameOf cfg m = some e.1.name ∧ e.2 = m.pat := by
+  unfold inserted at h
+  by_cases hp : m.pat < cfg.tagsFrom
+  · simp [hp] at h
+  · simp only [hp, if_false] at h
+    cases ht : tagOf v cfg src (cfg.pats[m.pat]?.getD {}) m st with
+    | none => simp [ht] at h
+    | some x =>
+      obtain ⟨t, pv⟩ := x
+      simp [ht] at h
+      subst h
+      exact ⟨tagOf_name v cfg src m st t pv hp ht, rfl⟩
+
+/-- The queue after a match: unchanged, or the inserted entry went through `qInsert`. -/
+theorem processMatch_queue' (v : Variant) (cfg : Cfg) (src : Bytes) (m : Mat) (st : St) :
+    (processMatch v cfg src m st).queue =
+      match inserted v cfg src m st with
+      | none => st.queue
+      | some e => qInsert e.1 e.2 st.queue := by
+  unfold processMatch inserted
   by_cases hp : m.pat < cfg.tagsFrom
   · simp [hp]
   · simp only [hp, if_false]
     unfold processTag
-    generalize capLoop cfg (cfg.pats[m.pat]?.getD {}) m.caps = a
-    obtain ⟨name, docs, tag, stid, isDef, adj, ignored⟩ := a
-    cases name with
-    | none => exact Or.inl rfl
-    | some nameNode =>
-      cases tag with
-      | some tagNode =>
-        simp only [Option.map_some]
-        split
-        · exact Or.inl rfl
-        · split
-          · exact Or.inl rfl
-          · exact Or.inr ⟨_, rfl, rfl⟩
-      | none =>
-        simp only [Option.map_some]
-        split
-        · exact Or.inr ⟨_, rfl, rfl⟩
-        · exact Or.inl rfl
+    cases ht : tagOf v cfg src (cfg.pats[m.pat]?.getD {}) m st with
+    | none => simp
+    | some x => obtain ⟨t, pv⟩ := x; simp
+
+theorem processMatch_queue (v : Variant) (cfg : Cfg) (src : Bytes) (m : Mat) (st : St) :
+    (processMatch v cfg src m st).queue = st.queue ∨
+    ∃ t, nameOf cfg m = some t.name ∧ (processMatch v cfg src m st).queue = qInsert t m.pat st.queue := by
+  rw [processMatch_queue']
+  cases hi : inserted v cfg src m st with
+  | none => exact Or.inl rfl
+  | some e =>
+    have := inserted_name hi
+    exact Or.inr ⟨e.1, this.1, by simp only [this.2]⟩
 
 def TagLt (a b : Tag) : Prop := keyLt (key a) (key b) = true
 
@@ -522,11 +558,6 @@ theorem flush_spec : ∀ (n : Nat) (q : Queue),
       · intro x hx; simp at hx
 
 
-def names (cfg : Cfg) (ms : List Mat) : List R := ms.filterMap (nameOf cfg)
-
-/-- Test configuration for the examples: capture 0 = `@name`, capture 1 = a reference kind. -/
-def wcfg : Cfg := { nameIdx := some 0, capMap := [(1, 0, false)], tagsFrom := 0, pats := #[{}] }
-def wm (s e : Nat) : Mat := { pat := 0, caps := [⟨0, s, e, ⟨0, s⟩, ⟨0, e⟩, false⟩, ⟨1, s, e, ⟨0, s⟩, ⟨0, e⟩, false⟩] }
 
 theorem keyLt_of_fst_lt {a b : Tag} (h : a.name.e < b.name.e) : TagLt a b := by
   simp [TagLt, keyLt, key, h]
@@ -666,6 +697,346 @@ theorem qInsert_pat_le (tag : Tag) (pat : Nat) (q : Queue) :
         · exact ⟨(t, p), List.mem_cons_self, rfl, Nat.le_refl _⟩
         · obtain ⟨x, hx, hk, hle⟩ := ih2 y hy
           exact ⟨x, List.mem_cons_of_mem _ hx, hk, hle⟩
+
+
+end TsVerif.C18
+
+/-! ## Local scopes; the loop with pattern indices -/
+namespace TsVerif.C18
+
+
+theorem isLocal_eq_spec (name : Bytes) (r : R) (scopes : Scopes) :
+    isLocal name r scopes = isLocalSpec name r scopes := by
+  unfold isLocalSpec
+  induction scopes with
+  | nil => simp [isLocal, visibleScopes]
+  | cons s rest ih =>
+    by_cases hc : s.contains r = true
+    · simp only [isLocal, hc, if_true, List.filter_cons, visibleScopes]
+      by_cases hd : s.defs.any (· == name) = true
+      · by_cases hi : s.inherits = true <;> simp [hd, hi]
+      · by_cases hi : s.inherits = true
+        · simp only [hd, hi, if_true, List.any_cons, Bool.false_eq_true, if_false, Bool.not_true]
+          rw [ih]; simp [hd]
+        · simp [hd, hi]
+    · simp only [isLocal, hc, List.filter_cons, Bool.false_eq_true, if_false]
+      exact ih
+
+/-- The visible-scope walk in words. -/
+theorem visible_any_iff (p : Scope → Bool) (l : List Scope) :
+    (visibleScopes l).any p = true ↔
+      ∃ pre s post, l = pre ++ s :: post ∧ (∀ x ∈ pre, x.inherits = true) ∧ p s = true := by
+  induction l with
+  | nil => simp [visibleScopes]
+  | cons a l ih =>
+    constructor
+    · intro h
+      by_cases hi : a.inherits = true
+      · simp only [visibleScopes, hi, if_true, List.any_cons, Bool.or_eq_true] at h
+        rcases h with h | h
+        · exact ⟨[], a, l, rfl, by simp, h⟩
+        · obtain ⟨pre, s, post, hl, hpre, hs⟩ := ih.mp h
+          refine ⟨a :: pre, s, post, by rw [hl]; rfl, ?_, hs⟩
+          intro x hx
+          rcases List.mem_cons.mp hx with rfl | hx
+          · exact hi
+          · exact hpre x hx
+      · simp only [visibleScopes, hi, List.any_cons, List.any_nil, Bool.or_false] at h
+        exact ⟨[], a, l, rfl, by simp, by simpa using h⟩
+    · rintro ⟨pre, s, post, hl, hpre, hs⟩
+      cases pre with
+      | nil =>
+        simp only [List.nil_append, List.cons.injEq] at hl
+        obtain ⟨rfl, rfl⟩ := hl
+        by_cases hi : a.inherits = true <;> simp [visibleScopes, hi, hs]
+      | cons b pre =>
+        simp only [List.cons_append, List.cons.injEq] at hl
+        obtain ⟨rfl, hl⟩ := hl
+        have hi : a.inherits = true := hpre a List.mem_cons_self
+        simp only [visibleScopes, hi, if_true, List.any_cons, Bool.or_eq_true]
+        exact Or.inr (ih.mpr ⟨pre, s, post, hl, fun x hx => hpre x (List.mem_cons_of_mem _ hx), hs⟩)
+
+
+
+theorem flushReady_eq_P : ∀ (n : Nat) (q : Queue),
+    flushReady n q = ((flushReadyP n q).1.map Prod.fst, (flushReadyP n q).2) := by
+  intro n
+  induction n with
+  | zero => intro q; simp [flushReady, flushReadyP]
+  | succ n ih =>
+    intro q
+    by_cases hr : ready q = true
+    · cases q with
+      | nil => simp [ready] at hr
+      | cons hd rest =>
+        obtain ⟨t, p⟩ := hd
+        simp only [flushReady, flushReadyP, hr, if_true, ih rest]
+        split <;> simp
+    · simp [flushReady, flushReadyP, hr]
+
+theorem drain_eq_P (skip : Bool) : ∀ (n : Nat) (q : Queue), drain skip n q = (drainP skip n q).map Prod.fst := by
+  intro n
+  induction n with
+  | zero => intro q; simp [drain, drainP]
+  | succ n ih =>
+    intro q
+    cases q with
+    | nil => simp [drain, drainP]
+    | cons hd rest =>
+      obtain ⟨t, p⟩ := hd
+      simp only [drain, drainP, ih rest]
+      split
+      · split <;> simp
+      · split <;> simp
+
+theorem run_eq_P (v : Variant) (cfg : Cfg) (src : Bytes) : ∀ (ms : List Mat) (st : St),
+    run v cfg src ms st = (runP v cfg src ms st).map Prod.fst := by
+  intro ms
+  induction ms with
+  | nil => intro st; simp [run, runP, drain_eq_P]
+  | cons m ms ih =>
+    intro st
+    simp only [run, runP, flushReady_eq_P, List.map_append, ih]
+
+theorem drainP_sublist (skip : Bool) : ∀ (n : Nat) (q : Queue), (drainP skip n q).Sublist q := by
+  intro n
+  induction n with
+  | zero => intro q; simp [drainP]
+  | succ n ih =>
+    intro q
+    cases q with
+    | nil => simp [drainP]
+    | cons hd rest =>
+      obtain ⟨t, p⟩ := hd
+      simp only [drainP]
+      split
+      · split
+        · exact (ih rest).cons _
+        · exact (ih rest).cons_cons _
+      · split
+        · exact (ih rest).cons _
+        · exact (ih rest).cons_cons _
+
+theorem flushP_spec : ∀ (n : Nat) (q : Queue),
+    ∃ pre, q = pre ++ (flushReadyP n q).2 ∧ (flushReadyP n q).1.Sublist pre ∧
+      ∀ x ∈ pre, ∃ y ∈ q, x.1.name.e < y.1.name.s := by
+  intro n
+  induction n with
+  | zero => intro q; exact ⟨[], by simp [flushReadyP]⟩
+  | succ n ih =>
+    intro q
+    by_cases hr : ready q = true
+    · cases q with
+      | nil => simp [ready] at hr
+      | cons hd rest =>
+        obtain ⟨t, p⟩ := hd
+        obtain ⟨pre, h1, h2, h3⟩ := ih rest
+        refine ⟨(t, p) :: pre, ?_, ?_, ?_⟩
+        · simp only [flushReadyP, hr, if_true, List.cons_append]; rw [← h1]
+        · simp only [flushReadyP, hr, if_true]
+          split
+          · exact h2.cons _
+          · exact h2.cons_cons _
+        · intro x hx
+          rcases List.mem_cons.mp hx with rfl | hx
+          · simp only [ready] at hr
+            cases hl : ((t, p) :: rest).getLast? with
+            | none => simp [hl] at hr
+            | some last =>
+              simp [hl] at hr
+              exact ⟨last, List.mem_of_getLast? hl, hr.2⟩
+          · obtain ⟨y, hy, hlt⟩ := h3 x hx
+            exact ⟨y, List.mem_cons_of_mem _ hy, hlt⟩
+    · refine ⟨[], ?_, ?_, ?_⟩
+      · simp [flushReadyP, hr]
+      · simp [flushReadyP, hr]
+      · intro x hx; simp at hx
+
+theorem keyLt_irrefl_of_eq {a b : Nat × Nat} (h : a = b) : keyLt a b = false := by
+  subst h; simp [keyLt]
+
+theorem qsorted_key_inj {q : Queue} (h : QSorted q) {a b : Tag × Nat} (ha : a ∈ q) (hb : b ∈ q)
+    (hk : key a.1 = key b.1) : a = b := by
+  induction q with
+  | nil => simp at ha
+  | cons hd rest ih =>
+    unfold QSorted at h ih
+    rw [List.pairwise_cons] at h
+    rcases List.mem_cons.mp ha with ha1 | ha1 <;> rcases List.mem_cons.mp hb with hb1 | hb1
+    · rw [ha1, hb1]
+    · subst ha1
+      have := h.1 b hb1; unfold KeyLt at this; rw [keyLt_irrefl_of_eq hk] at this; simp at this
+    · subst hb1
+      have := h.1 a ha1; unfold KeyLt at this; rw [keyLt_irrefl_of_eq hk.symm] at this; simp at this
+    · exact ih h.2 ha1 hb1
+
+theorem arrivals_names (v : Variant) (cfg : Cfg) (src : Bytes) : ∀ (ms : List Mat) (st : St),
+    ∀ a ∈ arrivals v cfg src ms st, a.1.name ∈ names cfg ms := by
+  intro ms
+  induction ms with
+  | nil => intro st a ha; simp [arrivals] at ha
+  | cons m ms ih =>
+    intro st a ha
+    simp only [arrivals, List.mem_append] at ha
+    rcases ha with ha | ha
+    · have hi : inserted v cfg src m { st with queue := (flushReadyP st.queue.length st.queue).2 } = some a := by
+        cases h : inserted v cfg src m { st with queue := (flushReadyP st.queue.length st.queue).2 } with
+        | none => simp [h] at ha
+        | some e => simp [h] at ha; rw [ha]
+      have := (inserted_name hi).1
+      simp only [names, List.filterMap_cons, this]
+      exact List.mem_cons_self
+    · have := ih _ a ha
+      simp only [names, List.filterMap_cons]
+      split
+      · exact this
+      · exact List.mem_cons_of_mem _ this
+
+
+theorem key_ne_of_e_lt {a b : Tag} (h : a.name.e < b.name.e) : key a ≠ key b := by
+  intro hk; simp [key] at hk; omega
+
+theorem runP_lowest (v : Variant) (cfg : Cfg) (src : Bytes) : ∀ (ms : List Mat) (st : St),
+    QSorted st.queue →
+    (∀ y ∈ st.queue, ∀ r ∈ names cfg ms, y.1.name.s ≤ r.e) →
+    (names cfg ms).Pairwise (fun a b => a.s ≤ b.e) →
+    ∀ e ∈ runP v cfg src ms st,
+      (e ∈ st.queue ∨ e ∈ arrivals v cfg src ms st) ∧
+      (∀ a ∈ arrivals v cfg src ms st, key a.1 = key e.1 → e.2 ≤ a.2) ∧
+      (∀ y ∈ st.queue, key y.1 = key e.1 → e.2 ≤ y.2) := by
+  intro ms
+  induction ms with
+  | nil =>
+    intro st hs _ _ e he
+    simp only [runP] at he
+    have hmem := (drainP_sublist v.drainSkips st.queue.length st.queue).subset he
+    refine ⟨Or.inl hmem, by simp [arrivals], ?_⟩
+    intro y hy hk
+    rw [qsorted_key_inj hs hy hmem hk]; exact Nat.le_refl _
+  | cons m ms ih =>
+    intro st hs hc hp e he
+    obtain ⟨pre, h1, h2, h3⟩ := flushP_spec st.queue.length st.queue
+    simp only [runP] at he
+    simp only [arrivals]
+    generalize hfr : flushReadyP st.queue.length st.queue = fr at h1 h2 he
+    obtain ⟨out, q'⟩ := fr
+    simp only at h1 h2 he ⊢
+    have hs0 : QSorted st.queue := hs
+    unfold QSorted at hs
+    rw [h1, List.pairwise_append] at hs
+    obtain ⟨hpre, hq', hcross⟩ := hs
+    have hsubq : ∀ y ∈ q', y ∈ st.queue := fun y hy => by rw [h1]; exact List.mem_append_right _ hy
+    have hsubp : ∀ y ∈ pre, y ∈ st.queue := fun y hy => by rw [h1]; exact List.mem_append_left _ hy
+    have hnames : ∀ r ∈ names cfg ms, r ∈ names cfg (m :: ms) := by
+      intro r hr
+      simp only [names, List.filterMap_cons]
+      split
+      · exact hr
+      · exact List.mem_cons_of_mem _ hr
+    have hp' : (names cfg ms).Pairwise (fun a b => a.s ≤ b.e) := by
+      simp only [names, List.filterMap_cons] at hp
+      split at hp
+      · exact hp
+      · exact (List.pairwise_cons.mp hp).2
+    generalize hst1 : ({ st with queue := q' } : St) = st1 at he ⊢
+    have hst1q : st1.queue = q' := by rw [← hst1]
+    generalize hst : processMatch v cfg src m st1 = st' at he ⊢
+    have hq := processMatch_queue' v cfg src m st1
+    rw [hst, hst1q] at hq
+    -- facts about the inserted entry
+    have hins : ∀ a, inserted v cfg src m st1 = some a →
+        a.1.name ∈ names cfg (m :: ms) ∧ (∀ r' ∈ names cfg ms, a.1.name.s ≤ r'.e) := by
+      intro a ha
+      have hn := (inserted_name ha).1
+      simp only [names, List.filterMap_cons, hn] at hp ⊢
+      exact ⟨List.mem_cons_self, (List.pairwise_cons.mp hp).1⟩
+    have hmem : ∀ y ∈ st'.queue, y ∈ q' ∨ inserted v cfg src m st1 = some y := by
+      intro y hy
+      rw [hq] at hy
+      cases hi : inserted v cfg src m st1 with
+      | none => rw [hi] at hy; exact Or.inl hy
+      | some a =>
+        rw [hi] at hy
+        rcases mem_qInsert hy with hy | hy
+        · exact Or.inl hy
+        · right; rw [hy]
+    have hsq : QSorted st'.queue := by
+      rw [hq]
+      cases inserted v cfg src m st1 with
+      | none => exact hq'
+      | some a => exact qInsert_sorted _ _ _ hq'
+    have hcq : ∀ y ∈ st'.queue, ∀ r ∈ names cfg ms, y.1.name.s ≤ r.e := by
+      intro y hy r hr
+      rcases hmem y hy with hy | hy
+      · exact hc y (hsubq y hy) r (hnames r hr)
+      · exact (hins y hy).2 r hr
+    have hlow : ∀ p ∈ pre, ∀ r ∈ names cfg (m :: ms), p.1.name.e < r.e := by
+      intro p hp r hr
+      obtain ⟨y0, hy0, hlt⟩ := h3 p hp
+      have := hc y0 hy0 r hr
+      omega
+    -- every later arrival is named by a later match
+    have harr : ∀ a, (a ∈ (inserted v cfg src m st1).toList ∨ a ∈ arrivals v cfg src ms st') →
+        a.1.name ∈ names cfg (m :: ms) := by
+      intro a ha
+      rcases ha with ha | ha
+      · cases hi : inserted v cfg src m st1 with
+        | none => simp [hi] at ha
+        | some b => simp [hi] at ha; rw [ha]; exact (hins b hi).1
+      · exact hnames _ (arrivals_names v cfg src ms st' a ha)
+    rcases List.mem_append.mp he with he | he
+    · -- popped now: it ends before every later name ends
+      have hep : e ∈ pre := h2.subset he
+      refine ⟨Or.inl (hsubp e hep), ?_, ?_⟩
+      · intro a ha hk
+        have := hlow e hep _ (harr a (List.mem_append.mp ha))
+        exact absurd hk.symm (key_ne_of_e_lt this)
+      · intro y hy hk
+        rw [qsorted_key_inj hs0 hy (hsubp e hep) hk]; exact Nat.le_refl _
+    · obtain ⟨iA, iB, iC⟩ := ih st' hsq hcq hp' e he
+      -- where the emitted entry comes from: its key is beyond every popped key
+      have hbeyond : ∀ p ∈ pre, key p.1 ≠ key e.1 := by
+        intro p hp
+        rcases iA with hy | ha
+        · rcases hmem e hy with hy | hy
+          · intro hk
+            have := hcross p hp e hy
+            unfold KeyLt at this
+            rw [keyLt_irrefl_of_eq hk] at this; simp at this
+          · exact key_ne_of_e_lt (hlow p hp _ (hins e hy).1)
+        · exact key_ne_of_e_lt (hlow p hp _ (hnames _ (arrivals_names v cfg src ms st' e ha)))
+      refine ⟨?_, ?_, ?_⟩
+      · rcases iA with hy | ha
+        · rcases hmem e hy with hy | hy
+          · exact Or.inl (hsubq e hy)
+          · exact Or.inr (List.mem_append_left _ (by simp [hy]))
+        · exact Or.inr (List.mem_append_right _ ha)
+      · intro a ha hk
+        rcases List.mem_append.mp ha with ha | ha
+        · cases hi : inserted v cfg src m st1 with
+          | none => simp [hi] at ha
+          | some b =>
+            simp [hi] at ha
+            subst ha
+            obtain ⟨⟨x, hx, hxk, hxle⟩, _⟩ := qInsert_pat_le a.1 a.2 q'
+            have hx' : x ∈ st'.queue := by rw [hq, hi]; exact hx
+            have := iC x hx' (by rw [hxk, hk])
+            omega
+        · exact iB a ha hk
+      · intro y hy hk
+        rw [h1] at hy
+        rcases List.mem_append.mp hy with hy | hy
+        · exact absurd hk (hbeyond y hy)
+        · cases hi : inserted v cfg src m st1 with
+          | none =>
+            have hy' : y ∈ st'.queue := by rw [hq, hi]; exact hy
+            exact iC y hy' hk
+          | some b =>
+            obtain ⟨_, h2nd⟩ := qInsert_pat_le b.1 b.2 q'
+            obtain ⟨x, hx, hxk, hxle⟩ := h2nd y hy
+            have hx' : x ∈ st'.queue := by rw [hq, hi]; exact hx
+            have := iC x hx' (by rw [hxk, hk])
+            omega
 
 
 end TsVerif.C18
